@@ -823,6 +823,32 @@ def sym_len(x):
     return builtins.len(x)
 
 
+def sym_range(*a):
+    """range() whose bounds may be symbolic integers and whose step is concrete: a generator that decides `i < stop` at every iteration
+    (a symbolic comparison the engine forks on), so a loop over a symbolic length unrolls exactly as far as some value of it allows"""
+    if all(isinstance(x, builtins.int) for x in a):
+        return builtins.range(*a)
+    if builtins.len(a) == 1:
+        start, stop, step = 0, a[0], 1
+    elif builtins.len(a) == 2:
+        start, stop, step = a[0], a[1], 1
+    else:
+        start, stop, step = a
+    if not isinstance(step, builtins.int) or step == 0:
+        raise Escape("sym_range: symbolic or zero step")
+
+    def gen():
+        i = start
+        n = 0
+        while (i < stop) if step > 0 else (i > stop):
+            yield i
+            i = i + step
+            n += 1
+            if n > 4096:
+                raise Escape("sym_range: more than 4096 iterations")
+    return gen()
+
+
 def sym_str(*a, **kw):
     if a and isinstance(a[0], SymBytes):
         # str(b, "utf8"): total only on ASCII here; harnesses constrain/handle non-ASCII
